@@ -161,6 +161,15 @@ class IndexDir:
         elif file.suffix.lower() != '.gtf':
             raise ValueError(f"Cannot handle gtf file {file}")
 
+        # An existing copy or symlink (generateIndex --force on an existing index)
+        # is replaced, never followed: otherwise os.symlink fails after the pools
+        # were wiped, and shutil.copy2 writes through a symlink into the GTF file
+        # the previous index was built from. The input file itself is never removed.
+        target = self.annotation_file
+        if file.absolute() != target.absolute() and \
+                (target.is_symlink() or (target.exists() and not target.samefile(file))):
+            target.unlink()
+
         if symlink:
             os.symlink(file.absolute(), self.annotation_file)
         elif file.suffix.lower() == '.gtf':
